@@ -19,12 +19,15 @@ From IB Require Import Combiners.Lawful.
 Import ListNotations.
 Open Scope Z_scope.
 
-Fixpoint gen_from (n : nat) (i a b m off : Z) : list Z :=
+(* computed incrementally: x_start = (a*start + b) mod m, x_{i+1} = (x_i + a) mod m with a single
+   conditional subtraction (Proofs/CombinersShapes.v: gen_values_closed_form) *)
+Fixpoint gen_from (n : nat) (x a' m off : Z) : list Z :=
   match n with
   | O => []
-  | S n' => ((a * i + b) mod m + off) :: gen_from n' (i + 1) a b m off
+  | S n' => (x + off) :: gen_from n' (let y := x + a' in if y <? m then y else y - m) a' m off
   end.
-Definition gen_values (start : Z) (n : nat) (a b m off : Z) : list Z := gen_from n start a b m off.
+Definition gen_values (start : Z) (n : nat) (a b m off : Z) : list Z :=
+  gen_from n ((a * start + b) mod m) (a mod m) m off.
 
 (* create, then add_input for each value: the accumulator expression of the plain fold *)
 Definition fold_expr {V} (vs : list V) : aexpr V := fold_left AAdd vs ACreate.
@@ -101,3 +104,18 @@ Fixpoint aexpr_of_mtree {V} (t : mtree V) : aexpr V :=
   | MLeaf lifted part => leaf_expr lifted part
   | MNode l r => AMerge (aexpr_of_mtree l) (aexpr_of_mtree r)
   end.
+
+(* the same call shape over other values (element types that embed into the model's: value codes
+   of floats, rationals num/den, order-preserving keys) *)
+Definition map_tree {X Y} (f : X -> Y) : mtree X -> mtree Y :=
+  fix go t := match t with
+              | MLeaf b p => MLeaf b (map f p)
+              | MNode l r => MNode (go l) (go r)
+              end.
+Definition map_aexpr {X Y} (f : X -> Y) : aexpr X -> aexpr Y :=
+  fix go e := match e with
+              | ACreate => ACreate
+              | AAdd e v => AAdd (go e) (f v)
+              | AMerge l r => AMerge (go l) (go r)
+              | ABuild vs => ABuild (map f vs)
+              end.
